@@ -320,7 +320,13 @@ class Renderer:
         return s + " " if s.startswith("\\") else s
 
     def sp(self):
-        return self.r.choice([" ", " ", "  ", "\n    ", "\t"]) if self.cfg.get("ws") == "wild" else " "
+        if self.cfg.get("ws") != "wild":
+            return " "
+        if self.cfg.get("comment_rate") and self.r.random() < 0.08:
+            # comments in the middle of a statement, one or two in a row (both kinds)
+            return self.r.choice([" /* c */ ", " // c\n    ", " // c\n    // d\n    ", " /* c */ /* d */ ",
+                                  " // c\n    /* d */ "])
+        return self.r.choice([" ", " ", "  ", "\n    ", "\t"])
 
     def comment(self):
         x = self.r.random()
